@@ -272,6 +272,9 @@ func parseLine(l string) (t *xtype, s string, ok bool) {
 
 func main() {
 	flag.Parse()
+	if *floatMode == "only" { // part C20F, see float_main.go
+		os.Exit(runFloat())
+	}
 	seed := vh.SeedFromEnv()
 	rep := vh.NewReport("C20", *tier, seed, "per datatype (27): strings from the XSD lexical grammar (canonical and non-canonical), canonical forms at the range boundaries of the Go type, a hand-picked boundary corpus, byte-level mutations just outside the grammar, all optionally wrapped in XML white space; non-trivial = grammar/canonical/corpus string, or any string the implementation accepts")
 	fs, err := vh.LoadFindings(*findings)
